@@ -359,6 +359,8 @@ func (fr *Frame) execSend(ins *ssa.Send, st *State) {
 	v := fr.val(ins.X)
 	vc.oblige("chan", fr.autoTags(), fr.curReach, fmt.Sprintf("(not (= %s 0))", c.S), "send on a nil channel blocks forever", ins.Pos(), nil)
 	vc.comp("$chclosed", "(Array Int Bool)")
+	// a `never_closed` channel is not closed (no close of that field in the package)
+	fr.neverClosedFacts(c, fr.curReach, fmt.Sprintf("(not (select %s %s))", vc.get(st, "$chclosed"), c.S), st)
 	vc.oblige("chan", fr.autoTags(), fr.curReach, fmt.Sprintf("(not (select %s %s))", vc.get(st, "$chclosed"), c.S), "send on a closed channel panics", ins.Pos(), nil)
 	fr.atSendAsserts(ins, v, st)
 	sc := vc.chsentComp()
@@ -426,7 +428,7 @@ func (fr *Frame) neverClosedFacts(c Term, guard, has string, st *State) {
 			if pos, found := closesField(fr.fn, strings.TrimSpace(sel)); found {
 				vc.unsupportedf("never_closed %s: the package closes a field of that name at %s", nc.Text, vc.posOf(pos))
 			}
-			vc.note("channel %s is never closed: no close of a field %s in package %s (syntactic check); a receive on it returns only with a value", nc.Text, sel, fr.fn.Pkg.Pkg.Name())
+			vc.note("channel %s is never closed: no close of a field %s in package %s (syntactic check); a receive on it returns only with a value and a send on it does not panic", nc.Text, sel, fr.fn.Pkg.Pkg.Name())
 		}
 		vc.assumeIf(guard, fmt.Sprintf("(=> (= %s %s) %s)", c.S, t.S, has))
 	}
